@@ -327,6 +327,14 @@ pub fn plan(tier: Tier) -> Plan {
             }
         }));
     }
+    // (d3) far-target family
+    p.units.push(unit("far-target-family", "far targets".into(), move |st, rep| {
+        for (_, kvs) in far_family() {
+            st.nontrivial += 1;
+            do_case(&kvs, Front::RawInsert, DEFAULT_GEOM, true, st, rep);
+            do_case(&kvs, Front::MapInsert, DEFAULT_GEOM, false, st, rep);
+        }
+    }));
     // (e) size families (thorough): 2-, 3- and 4-byte address deltas
     if thorough {
         for n in [3_000u64, 70_000, 1_200_000] {
